@@ -9,6 +9,7 @@ import PV.Generated.TreeLoops
 comparator calls equal are one key).  The outputs compared are everything the API shows: `nnodes`
 after insert/remove, the found flag, lookup results, the pairs visited by `foreach` up to any stop
 point, and the objects handed to the destroy notifiers (used again by C14).
+`newFull_iff` / `newFull_alloc_failure`: which creation calls give a tree (bad type, no comparator, failed allocation: NULL).
 -/
 namespace PV.Tree
 open Std
@@ -61,6 +62,16 @@ theorem count_is_length (l : List (κ × ν)) : (specStep cmp l .count).2 = .num
 theorem tree_source_as_modelled :
     Generated.treeLoopsAsModelled = true ∧ Generated.treeCallsAsModelled = true ∧ Generated.treeCompareBySign = true := by
   decide
+
+/-- `p_tree_new_full` gives a tree exactly for the three types, a comparator and a successful allocation — in particular a
+    failed allocation gives NULL whatever the arguments (harness op `newf`), and every valid request is served -/
+theorem newFull_iff (ty : Int) (f a : Bool) : newFull ty f a = true ↔ (0 ≤ ty ∧ ty ≤ 2) ∧ f = true ∧ a = true := by
+  simp [newFull, and_assoc]
+
+theorem newFull_alloc_failure (ty : Int) (f : Bool) : newFull ty f false = false := by
+  simp [newFull]
+
+example : newFull 2 true true = true ∧ newFull 3 true true = false ∧ newFull 1 false true = false := by decide
 
 /-! non-vacuity: `Nat` with `compare` is such a comparator; a concrete run -/
 example : (avlRun (κ := Nat) (ν := Nat) compare (.nil, 0) [.ins 2 20, .ins 1 10, .ins 3 30, .rem 2, .get 3, .each 1]).isSome := by
